@@ -7,7 +7,15 @@ use serde_json::{json, Value};
 use simcore::*;
 use std::collections::BTreeSet;
 
-const MODES: [&str; 11] = ["heading", "no-heading", "context-heading", "context-no-heading", "count", "files-with-matches", "files-without-match", "json", "files", "quiet", "sorted"];
+const MODES: [&str; 16] = ["heading", "no-heading", "context-heading", "context-no-heading", "count", "files-with-matches", "files-without-match", "json", "files", "quiet", "sorted",
+    // modes whose blocks cannot be told apart by a path (-I) or whose terminators are not "\n":
+    // compared as multisets of output lines (every separator and terminator counts)
+    "heading-no-filename", "context-no-filename", "crlf-context", "crlf-heading", "null-data-context"];
+
+/// Modes compared line by line instead of block by block.
+fn by_lines(mode: &str) -> bool {
+    matches!(mode, "heading-no-filename" | "context-no-filename" | "crlf-context" | "crlf-heading" | "null-data-context")
+}
 
 #[derive(Clone, Debug)]
 pub struct Workload {
@@ -111,7 +119,7 @@ pub fn gen_workload(sub: u64) -> Workload {
     let mode = MODES[rng.below(MODES.len())].to_string();
     let threads = if rng.chance(1, 8) { 9 + rng.below(8) } else { 2 + rng.below(7) };
     let open_fault = if rng.chance(1, 5) { Some(corpus.files[rng.below(corpus.files.len())].0.clone()) } else { None };
-    let read_fault = if open_fault.is_none() && mode != "sorted" && mode != "quiet" && rng.chance(1, 4) {
+    let read_fault = if open_fault.is_none() && mode != "sorted" && mode != "quiet" && !by_lines(&mode) && rng.chance(1, 4) {
         // prefer a file that has matches early on
         let cands: Vec<&(String, Vec<u8>)> = corpus.files.iter().filter(|(_, c)| c.len() > 400 && c[..300].windows(3).any(|w| w == b"foo")).collect();
         if cands.is_empty() {
@@ -184,6 +192,11 @@ fn args_for(w: &Workload, threads: usize) -> Vec<String> {
         "files" => a.push("--files".into()),
         "quiet" => a.push("-q".into()),
         "sorted" => a.extend(["--sort=path".into(), "--heading".into(), "-n".into()]),
+        "heading-no-filename" => a.extend(["--heading".into(), "-I".into(), "-n".into()]),
+        "context-no-filename" => a.extend(["--no-heading".into(), "--no-filename".into(), "-n".into(), "-C1".into()]),
+        "crlf-context" => a.extend(["--crlf".into(), "--no-heading".into(), "-n".into(), "-C1".into()]),
+        "crlf-heading" => a.extend(["--crlf".into(), "--heading".into(), "-n".into()]),
+        "null-data-context" => a.extend(["--null-data".into(), "--no-heading".into(), "-n".into(), "-C1".into()]),
         _ => {}
     }
     a.extend(w.extra_flags.iter().cloned());
@@ -238,6 +251,7 @@ pub fn blocks(mode: &str, out: &[u8]) -> Result<Vec<Vec<u8>>, String> {
 /// are streamed its JSON block is legitimately left without an `end` message.
 pub fn blocks_tolerating(mode: &str, out: &[u8], failed: Option<&str>) -> Result<Vec<Vec<u8>>, String> {
     match mode {
+        m if by_lines(m) => Ok(out.split_inclusive(|&b| b == b'\n').map(|l| l.to_vec()).collect()),
         "heading" | "context-heading" | "sorted" => {
             if out.is_empty() {
                 return Ok(vec![]);
@@ -491,6 +505,30 @@ fn judge(w: &Workload, ref_blocks: &[Vec<u8>], reference: &RunOut, got: &RunOut)
     }
     a.sort();
     b.sort();
+    if a != b && w.mode == "null-data-context" {
+        // the one listed difference: records end with NUL, the printer ends the separator between
+        // two files with NUL as well, the multi-threaded writer ends it with a line feed. Anything
+        // beyond exactly that is reported as blocks-differ.
+        let canon = |o: &[u8]| -> Vec<Vec<u8>> {
+            let mut v: Vec<u8> = vec![];
+            let mut i = 0;
+            while i < o.len() {
+                if o[i..].starts_with(b"\0--\n") {
+                    v.extend_from_slice(b"\0--\0");
+                    i += 4;
+                } else {
+                    v.push(o[i]);
+                    i += 1;
+                }
+            }
+            let mut r: Vec<Vec<u8>> = v.split_inclusive(|&b| b == 0).map(|l| l.to_vec()).collect();
+            r.sort();
+            r
+        };
+        if canon(&got.stdout) == canon(&reference.stdout) && got.stdout.len() == reference.stdout.len() {
+            return Some(("file-separator-terminator-differs:null-data".into(), "with --null-data the separator between two files ends with NUL when printed by one thread and with a line feed when printed by several".into()));
+        }
+    }
     if a != b {
         let missing = b.iter().filter(|x| !a.contains(x)).count();
         let extra = a.iter().filter(|x| !b.contains(x)).count();
